@@ -56,7 +56,7 @@ pub fn run_check(context: &CheckContext) -> CheckOutcome {
             break;
         }
     }
-    if outcome.violations.is_empty() && matches!(context.property.as_str(), "C01" | "C05") { return run_conc_check(context, outcome); }
+    if outcome.violations.is_empty() && matches!(context.property.as_str(), "C01" | "C04" | "C05") { return run_conc_check(context, outcome); }
     outcome
 }
 
@@ -77,7 +77,12 @@ pub fn conc_campaigns(property: &str) -> Vec<ConcCampaign> {
         "C05" => vec![ConcCampaign { name: "conc-quiescence", profile: General, cases_quick: 800, cases_thorough: 6000, nt: |s| s.unawaited_same_key,
             rule: "generated concurrent programs racing the same keys; quiescence is constructed (all acknowledgements awaited, clock frozen, two sweeps waited for) and the physical snapshot must be a bijection store ids <-> charged ids with a matching total; non-trivial = two writes of one key where the second was issued before the first was acknowledged" }],
         "C02" => vec![ConcCampaign { name: "conc-reads", profile: General, cases_quick: 1200, cases_thorough: 10_000, nt: |s| s.overlapping_read_write && s.read_after_completed_overwrite,
-            rule: "generated concurrent programs, every write carries a unique token (key, thread, op); all 7 read variants; pressure in 3 of 4 configs; hash functions default/identity/constant/mod 2; history checker: value decodes to the key, was written by a write that began before the read ended and was not refused, and no overwrite/delete ordered after that write had completed before the read began; non-trivial = a read overlapped a write of its key AND a value-returning read followed a completed write of that key" }],
+            rule: "[general] generated concurrent programs, every write carries a unique token (key, thread, op); all 7 read variants; pressure in 3 of 4 configs; hash functions default/identity/constant/mod 2; history checker: value decodes to the key, was written by a write that began before the read ended and was not refused, and no overwrite/delete ordered after that write had completed before the read began; non-trivial = a read overlapped a write of its key AND a value-returning read followed a completed write of that key" },
+            ConcCampaign { name: "conc-delete-window", profile: DeleteWindow, cases_quick: 300, cases_thorough: 4000, nt: |s| s.read_between_delete_and_ack && s.guard_held_during_delete,
+            rule: "deleter / readers / guard holders on the same keys with a slowed command worker (see C04); non-trivial = a read between delete() returning and its acknowledgement AND a guard held when delete() was called" }],
+        "C04" => vec![ConcCampaign { name: "conc-delete-window", profile: DeleteWindow, cases_quick: 500, cases_thorough: 6000, nt: |s| s.read_between_delete_and_ack && s.guard_held_during_delete,
+            rule: "one deleter cycling awaited put / unawaited delete / immediate reads / await on 3 keys of one store shard region, 1-5 threads reading and holding get_ref guards on the same keys, command worker delayed 30-500 us per command so the window between delete() returning and its acknowledgement is wide; history checker: no read that starts after delete() returned may return the deleted value; non-trivial = a read of the key fell between delete() returning and its acknowledgement AND a get_ref guard was held when delete() was called" }],
+        "C02x" => vec![],
         "C11" => vec![ConcCampaign { name: "conc-bursts", profile: Bursts, cases_quick: 800, cases_thorough: 8000, nt: |s| s.queue_full_sends && s.concurrent_in_flight,
             rule: "generated bursts of unawaited writes from 1-8 threads, queue size 1/2/3/8, worker and senders delayed by injection; trace checker: every queued command executed exactly once, executions never overlap, per-thread and real-time cross-thread order preserved, statuses match; when the last acknowledgement of a thread completes all earlier ones are complete; non-trivial = a send waited on a full queue AND two threads had commands in flight at once" }],
         "C13" => vec![ConcCampaign { name: "conc-shutdown", profile: Shutdown, cases_quick: 1000, cases_thorough: 10_000, nt: |s| s.shutting_down_acks >= 1 && s.real_acks >= 1,
@@ -104,18 +109,18 @@ fn run_conc_check(context: &CheckContext, mut outcome: CheckOutcome) -> CheckOut
         let stall = std::time::Duration::from_secs(if thorough { 30 } else { 10 });
         let property = context.property.clone();
         let nt = campaign.nt;
-        let failing_history: std::sync::Arc<std::sync::Mutex<Option<(u64, History)>>> = std::sync::Arc::new(std::sync::Mutex::new(None));
+        let failing_history: std::sync::Arc<std::sync::Mutex<std::collections::HashMap<u64, History>>> = std::sync::Arc::new(std::sync::Mutex::new(std::collections::HashMap::new()));
         let sink = failing_history.clone();
         let run_case: std::sync::Arc<dyn Fn(&ConcCase) -> CaseResult + Send + Sync> = std::sync::Arc::new(move |case: &ConcCase| {
             let (result, history) = conc_case_result(case, &property, repeats, stall, nt);
-            if let Some(history) = history { *sink.lock().unwrap() = Some((case_hash(case), history)); }
+            if let Some(history) = history { sink.lock().unwrap().insert(case_hash(case), history); }
             result
         });
         let profile = campaign.profile;
         let (report, found) = run_campaign_with(context, campaign.name, "CONC", campaign.rule, cases, std::sync::Arc::new(move || conc_case_strategy(profile, thorough)), run_case, false, (context.workers / 3).max(2));
         outcome.reports.push(report);
         if let Some((case, failure)) = found {
-            let history = failing_history.lock().unwrap().take().filter(|(hash, _)| *hash == case_hash(&case)).map(|(_, history)| history);
+            let history = failing_history.lock().unwrap().remove(&case_hash(&case));
             let replay = Replay { property: context.property.clone(), engine: "CONC".to_string(), campaign: campaign.name.to_string(), seed: context.seed,
                 case: serde_json::to_value(&case).unwrap(), policy: json!({"observed_history": history}), failure: Some(failure.clone()),
                 note: "concurrent case: not shrunk; `policy.observed_history` is the history that failed (re-checked offline by replay); replay also re-executes the program up to 150 times".to_string() };
